@@ -291,6 +291,10 @@ func (x *world) driveTrigger(ctx vctx.Context, cancel func(), mgr *workers.PoolM
 	}
 	for i, tk := range c.ticks {
 		last := i == len(c.ticks)-1
+		requested := tk.n
+		if tk.n < 0 {
+			tk.n = 0 // a negative value asks for nothing; the pool is still handed the value as it is
+		}
 		if tk.q {
 			quiesce()
 		} else if i > 0 {
@@ -320,7 +324,7 @@ func (x *world) driveTrigger(ctx vctx.Context, cancel func(), mgr *workers.PoolM
 		} else {
 			x.definite += int64(tk.n)
 		}
-		pool.Trigger(wctx, tk.n)
+		pool.Trigger(wctx, requested)
 	}
 	if c.gate == "all-open-after-ticks" {
 		// what the last tick left pending is still wanted: once the bodies are released
@@ -565,6 +569,9 @@ func scenariosFor(tier string) []vrt.Scenario {
 		}
 		plain(1, true, cfg{kind: "trigger", workers: 2, ticks: q(2, 1), gate: "none", stop: "cancel-q"})
 		plain(1, true, cfg{kind: "trigger", workers: 2, ticks: q(3), gate: "none", stop: "limit", limit: 2})
+		// a negative tick requests nothing (and leaves nothing "pending")
+		add(1, cfg{kind: "trigger", workers: 1, ticks: q(-3, 2, -1), gate: "none", stop: "cancel-q"})
+		addDelay(1, cfg{kind: "trigger", workers: 2, ticks: q(2, -2, 1), gate: "none", stop: "cancel-q"})
 		// a tick beyond 32 bits, ended by the limit (which discards what is pending in one step)
 		addDelay(1, cfg{kind: "trigger", workers: 2, ticks: q(1<<32 + 3), gate: "none", stop: "limit", limit: 5})
 	case "C03":
